@@ -371,8 +371,18 @@ def stepSim (acc : Sim × Bool × List String × List Json) (so : Json × Json) 
     | "sub" => subscribe st0 { id := sid, reading := jstr (jget stp "mode") == "reader", cancelled := false, inbox := [] } st0.subs.length
     | "cancel" => { st0 with subs := st0.subs.map fun s => if s.id == sid then { s with cancelled := true, reading := false } else s }
     | _ => st0
-  let pending := if op == "unsub" then sim.pending ++ [sid] else sim.pending
+  let pending0 := if op == "unsub" then sim.pending ++ [sid] else sim.pending
   let asked := if op == "unsub" then sim.asked ++ [sid] else sim.asked
+  -- A loop that was stuck and is released in this step (its stuck subscriber was cancelled) returns to its
+  -- `select`, where Go picks at random between a pending Unsubscribe and a tick/update; if another stuck
+  -- subscriber exists, the first choice lets that Unsubscribe complete and the second blocks again. The
+  -- oracle resolves this choice from the observation: an Unsubscribe that was pending while the loop was
+  -- stuck and is observed completed has been selected first.
+  let obsDone (i : Nat) : Bool := let u := jget (jget ob "unsubs") (toString i); jbool (jget u "done") && jbool (jget u "closed")
+  let early := if st1.blocked then pending0.filter obsDone else []
+  let st1 : St := if early.isEmpty then st1 else
+    { st1 with subs := st1.subs.filter (fun s => !early.contains s.id), closedIds := early ++ st1.closedIds }
+  let pending := pending0.filter fun i => !early.contains i
   -- 3. the loop during the waiting window (longer than one push interval)
   let stuckNow := st1.subs.any (·.stuck)
   let st2a : St := if st1.blocked && !stuckNow then { st1 with blocked := false } else st1
@@ -402,6 +412,10 @@ def stepSim (acc : Sim × Bool × List String × List Json) (so : Json × Json) 
 def handle (j : Json) : Json :=
   let id := jget j "id"
   let steps := jarr (jget j "steps")
+  -- not judged: the first run of this timeline did not converge before the deadline but a re-run with
+  -- fresh instances did (`timing-off`), or the case was not re-run at all (`unconfirmed`)
+  if jhas (jget j "impl") "timing_off" then verdict id true Json.null [] "timing-off" true else
+  if jhas (jget j "impl") "unconfirmed" then verdict id true Json.null [] "unconfirmed" true else
   let obs := jarr (jget (jget j "impl") "obs")
   let init : Sim := { reg := [], st := { latest := [], subs := [], closedIds := [], blocked := false }, pending := [], asked := [], prev := [] }
   let (_, agree, viols, models) := (steps.zip obs).foldl stepSim (init, true, [], [])
